@@ -17,13 +17,17 @@ where
             RustType::Complex(props) => write_complex_type(writer, props),
             RustType::Simple(props) => write_simple_type(writer, props),
             RustType::Element(props) => {
-                let ElementProps { xml_name, element_type } = &**props;
+                let ElementProps {
+                    xml_name,
+                    element_type,
+                    target_namespace,
+                } = &**props;
                 let rust_name = xml_name_to_rust_name(xml_name);
 
                 match element_type {
                     ElementType::RustType(rust_type) => {
                         if let Some(segment) = rust_type.to_string().split(':').next_back() {
-                            if segment == rust_name {
+                            if segment == rust_name && !in_other_module(rust_type, target_namespace.as_ref()) {
                                 // NOOP
                                 return Ok(());
                             }
@@ -45,6 +49,14 @@ where
     }
 }
 
+/// a type of the same name in another module is a different type, not an alias of itself
+fn in_other_module(rust_type: &RustFieldType, target_namespace: Option<&Rc<Namespace>>) -> bool {
+    match rust_type {
+        RustFieldType::Other(other) => other.module.as_deref() != target_namespace.map(|ns| ns.rust_mod_name.as_str()),
+        _ => false,
+    }
+}
+
 fn write_simple_type<W>(writer: &mut W, props: &SimpleProps) -> WriterResult<()>
 where
     W: io::Write,
@@ -58,13 +70,8 @@ where
     } = &props;
 
     let rust_name = xml_name_to_rust_name(xml_name);
-    // a type of the same name in another module is a different type
-    let in_other_module = match rust_type {
-        RustFieldType::Other(other) => other.module.as_deref() != target_namespace.as_ref().map(|ns| ns.rust_mod_name.as_str()),
-        _ => false,
-    };
     if let Some(segment) = rust_type.to_string().split(':').next_back() {
-        if segment == rust_name && !in_other_module {
+        if segment == rust_name && !in_other_module(rust_type, target_namespace.as_ref()) {
             // NOOP
             return Ok(());
         }
